@@ -4,10 +4,12 @@ import (
 	"bytes"
 	"fmt"
 	"math/big"
+	"os"
 	"sort"
 	"testing/synctest"
 	"time"
 
+	logger "github.com/ElrondNetwork/elrond-go-logger"
 	"github.com/ElrondNetwork/elrond-go/config"
 	"github.com/ElrondNetwork/elrond-go/core/queue"
 	"github.com/ElrondNetwork/elrond-go/data"
@@ -95,6 +97,10 @@ type run struct {
 
 	prunesAfterChange, rollbacks, bufferedPrunes, verifiedConcurrent int
 	rollbackWhileBlocked, recreatedInBlock                           bool
+	interRoots                                                       map[string]bool // intermediate roots taken as "old root" by blocks built on the empty trie
+	valueQuirk                                                       bool            // such a value is also a committed root
+	pendingInter                                                     string
+	rewrittenThenRemoved, pendingRTR                                 bool
 }
 
 func (r *run) open(root []byte) bool {
@@ -117,7 +123,10 @@ func (r *run) open(root []byte) bool {
 }
 
 func execute(c *simkit.Ctx, bubble bool) bool {
-	r := &run{c: c, bubble: bubble, m: model{}, allRoots: map[string]int{}}
+	if lv := os.Getenv("VERIF_LOGLEVEL"); lv != "" { // debugging aid for replays: the repository's own trace log
+		_ = logger.SetLogLevel(lv)
+	}
+	r := &run{c: c, bubble: bubble, m: model{}, allRoots: map[string]int{}, interRoots: map[string]bool{}}
 	if bubble {
 		r.parker = simkit.NewParker()
 		// transient read error seen by one background worker during a CHECKPOINT (armed by a release step): that
@@ -200,6 +209,9 @@ func execute(c *simkit.Ctx, bubble bool) bool {
 func (r *run) head() *blockRec { return &r.blocks[len(r.blocks)-1] }
 
 func (r *run) recurring() bool {
+	if r.valueQuirk {
+		return true
+	}
 	for _, n := range r.allRoots {
 		if n >= 2 {
 			return true
@@ -217,6 +229,10 @@ func (r *run) applyMutations(st *simkit.Step, m model, bumpNonce bool) bool {
 		muts = append(muts, 7, mNonce, 0) // account 7 is a pure counter: never removed, so no state root value recurs
 	}
 	removedHere := map[int]bool{}
+	headEmpty := len(r.head().root) == 0 || bytes.Equal(r.head().root, triekit.EmptyHash)
+	interDone := false
+	storedHere := map[int]bool{}
+	r.pendingInter, r.pendingRTR = "", false
 	for j := 0; j+2 < len(muts); j += 3 {
 		ai, kind, arg := int(muts[j]), muts[j+1], muts[j+2]
 		a := addr(ai)
@@ -230,7 +246,13 @@ func (r *run) applyMutations(st *simkit.Step, m model, bumpNonce bool) bool {
 			}
 			delete(m, ai)
 			removedHere[ai] = true
+			if storedHere[ai] {
+				r.pendingRTR = true // storage rewritten and the account removed inside one block (counts if the block is committed)
+			}
 			continue
+		}
+		if kind == mStore {
+			storedHere[ai] = true
 		}
 		if removedHere[ai] {
 			r.recreatedInBlock = true // removed and created again inside one block
@@ -281,6 +303,16 @@ func (r *run) applyMutations(st *simkit.Step, m model, bumpNonce bool) bool {
 			return false
 		}
 		m[ai] = ma
+		if !interDone && headEmpty && j+3 < len(muts) {
+			interDone = true
+			// A block built on the EMPTY trie: patriciaMerkleTrie takes its "old root" at the first modification that finds
+			// a non-nil root, i.e. the intermediate root after this first insertion, and Commit files the block's old hashes
+			// under that VALUE. If the value is also a committed root (tiny states), that root's waiting-list entry is
+			// overwritten: the known finding recurring-root-value with the value recurring as an intermediate state.
+			if rh, err := adb.RootHash(); err == nil {
+				r.pendingInter = string(rh) // counts only if this block is committed
+			}
+		}
 	}
 	return true
 }
@@ -364,6 +396,18 @@ func (r *run) step(st *simkit.Step) {
 		r.m = m
 		if !bytes.Equal(rh, r.head().root) { // an unchanged state is not a recurrence of a root value
 			r.allRoots[string(rh)]++
+		}
+		if r.pendingRTR {
+			r.rewrittenThenRemoved = true
+		}
+		if r.pendingInter != "" {
+			r.interRoots[r.pendingInter] = true
+			if r.allRoots[r.pendingInter] > 0 && r.pendingInter != string(rh) {
+				r.valueQuirk = true
+			}
+		}
+		if r.interRoots[string(rh)] && r.pendingInter != string(rh) {
+			r.valueQuirk = true
 		}
 		r.blocks = append(r.blocks, blockRec{root: rh, m: m.clone()})
 		c.Eventf("%d block #%d root %x", c.CurStep, len(r.blocks)-1, rh)
@@ -648,6 +692,15 @@ func (r *run) checkLive() {
 				// a rollback issued while pruning was blocked leaves a buffered cancel for the parent root; when a new
 				// block is committed on that parent, the late cancel evicts the NEW block's old-hashes entry
 				site = "after-rollback-while-pruning-blocked"
+			} else if r.recreatedInBlock {
+				// an account removed and created again inside one block with the same storage: the block's new hashes list data-trie
+				// nodes that existed before the block; rolling that block back deletes them although the parent still needs them
+				site = "after-account-removed-and-recreated-in-one-block"
+			} else if r.rewrittenThenRemoved {
+				// storage of an account rewritten (a node obsoleted and created again) and the account removed inside one block:
+				// the node is in the old AND new hashes of that commit, MarkForEviction's duplicate filter drops it from both, so it
+				// is never listed as obsolete; a later block that creates it again and is rolled back deletes it under older live roots
+				site = "after-account-storage-rewritten-and-account-removed-in-one-block"
 			}
 			r.c.Violate("C09", r.kind(), site, "root %x of block #%d (%s) is not retrievable after step %d %s: %v", b.root, i, what, r.c.CurStep, stepName(r.c), err)
 			return
